@@ -11,8 +11,10 @@ CONSTANTS MaxParams, DumpCases, SampleSize
 R == INSTANCE Req
 
 ParamLists == UNION { [1..n -> ParamTys] : n \in 0..MaxParams }
-Fn(dk, pass, ps, bound, lw, as, q, ret, gn) ==
-  [deps |-> [kind |-> dk, pass |-> pass], params |-> ps, bound |-> bound, lwhere |-> lw, async |-> as, qual |-> q, ret |-> ret, gname |-> gn]
+Fn0(dk, pass, ps, bound, lw, as, q, ret, gn) ==
+  [deps |-> [kind |-> dk, pass |-> pass], params |-> ps, bound |-> bound, lwhere |-> lw, async |-> as, qual |-> q, ret |-> ret, gname |-> gn,
+   cfirst |-> FALSE, cform |-> "path"]
+Fn(dk, pass, ps, bound, lw, as, q, ret, gn) == Fn0(dk, pass, ps, bound, lw, as, q, ret, gn)
 FnOK(f) ==
   /\ (f.deps.kind = "nodeps" => f.deps.pass = "ref" /\ f.ret # "borrow-deps")
   /\ (f.ret = "borrow-deps" => f.deps.pass = "reflife")
@@ -25,8 +27,11 @@ FnOK(f) ==
   /\ (f.lwhere # "none" => Len(f.params) = 2 /\ f.params[1] = "reflife" /\ f.params[2] = "reflife")
   /\ (f.bound = "where" => \E i \in DOMAIN f.params : f.params[i] = "generic")
   /\ (f.qual = "extern" => ~f.async)
-Fns == { f \in { Fn(dk, pa, ps, bo, lw, as, q, re, "U") : dk \in DepKinds, pa \in Passes, ps \in ParamLists, bo \in {"inline", "where"},
+FnsBase == { f \in { Fn(dk, pa, ps, bo, lw, as, q, re, "U") : dk \in DepKinds, pa \in Passes, ps \in ParamLists, bo \in {"inline", "where"},
                                                          lw \in {"none", "where", "inline"}, as \in BOOLEAN, q \in Quals, re \in Rets } : FnOK(f) }
+\* two rendering variants of the same abstract function: the const parameter first; the concrete dependency as a bare identifier
+Fns == FnsBase \cup { [f EXCEPT !.cfirst = TRUE] : f \in { g \in FnsBase : HasArray(g) } }
+               \cup { [f EXCEPT !.cform = "ident"] : f \in { g \in FnsBase : g.deps.kind = "concrete" } }
 \* modes: one fn; a module of one fn; a module of two fns with different / the same generic names; impl blocks (no lifted generics)
 Simple(f) == \A i \in DOMAIN f.params : f.params[i] \in {"owned", "ref", "reflife"}
 Second(same) == Fn("generic", "ref", <<"generic">>, "inline", "none", FALSE, "plain", "unit", IF same THEN "U" ELSE "V")
